@@ -134,6 +134,33 @@ func genCaptions(i int) Input {
 	return mkInput("captions", b.doc(t))
 }
 
+// footnotes (css-gcpm-3 §2): a footnote element F with specified display d and footnote-display fd
+// inside a parent with display p.
+//
+//	shape 0: P[ text F[text] text ]
+//	shape 1: P[ F[ text <div block>text</div> <span none>text</span> ] ]     (F first, mixed content)
+//	shape 2: P[ text G[ text F[text] ] ]   G a block footnote: F is a footnote inside a footnote
+func genFootnote(p, d, fd string, shape int) Input {
+	b := newBuilder()
+	f := b.el("div", d)
+	f.Float, f.FD = "footnote", fd
+	var top *Node
+	switch shape {
+	case 0:
+		f.Kids = []*Node{b.tk()}
+		top = b.el("div", p, b.text(b.token()+" "), f, b.text(" "+b.token()))
+	case 1:
+		f.Kids = []*Node{b.tk(), b.el("div", "block", b.tk()), b.el("span", "none", b.tk())}
+		top = b.el("div", p, f)
+	default:
+		f.Kids = []*Node{b.tk()}
+		g := b.el("span", "", b.text(b.token()+" "), f)
+		g.Float = "footnote"
+		top = b.el("div", p, b.tk(), g)
+	}
+	return mkInput("footnote", b.doc(top))
+}
+
 // ---- random trees
 
 type rgen struct {
@@ -170,6 +197,12 @@ func (g *rgen) decorate(n *Node) {
 	r := g.r
 	if r.Float64() < 0.12 {
 		n.Float = pick(r, []string{"left", "right"})
+	}
+	if r.Float64() < 0.07 {
+		// footnote element; combined below with any position (absolute/fixed make it an ordinary
+		// positioned element) and, through display(), with any display value including none
+		n.Float = "footnote"
+		n.FD = pick(r, []string{"", "", "block", "inline", "compact"})
 	}
 	switch x := r.Float64(); {
 	case x < 0.05:
@@ -318,6 +351,10 @@ func (g *rgen) replaced(depth int) *Node {
 	if r.Float64() < 0.15 {
 		n.Float = "left"
 	}
+	if r.Float64() < 0.08 {
+		n.Float = "footnote"
+		n.FD = pick(r, []string{"", "block", "inline", "compact"})
+	}
 	if r.Float64() < 0.1 {
 		n.Pos = "absolute"
 	}
@@ -337,6 +374,10 @@ func (g *rgen) htmlTable(depth int) *Node {
 		}
 		if r.Float64() < 0.05 {
 			n.Float = "left"
+		}
+		if r.Float64() < 0.03 {
+			n.Float = "footnote"
+			n.FD = pick(r, []string{"", "block", "inline", "compact"})
 		}
 		if r.Float64() < 0.04 {
 			n.Pos = "absolute"
@@ -433,6 +474,9 @@ func genRandom(r *rand.Rand) Input {
 		}
 		if r.Float64() < 0.05 {
 			root.Kids[0].Float = "left"
+		}
+		if r.Float64() < 0.02 {
+			root.Kids[0].Float = "footnote" // the whole body is a footnote of the root element
 		}
 		{
 			in := mkInput("random", root)
